@@ -9,6 +9,12 @@ Z3_RLIMIT = int(os.environ.get('VERIF_Z3_RLIMIT', '60000000'))     # determinist
 Z3_TIMEOUT_MS = int(os.environ.get('VERIF_Z3_TIMEOUT_MS', '120000'))   # wall-clock safety net only
 Z3_FIRST_MS = int(os.environ.get('VERIF_Z3_FIRST_MS', '8000'))
 CVC5_TIMEOUT_MS = int(os.environ.get('VERIF_CVC5_TIMEOUT_MS', '40000'))
+# wall-clock budget of one discharge_all call for the slow stages (cvc5, long z3): a change that breaks hundreds of
+# obligations must not turn the check into hours of time-outs; past the deadline every remaining obligation still gets
+# the first z3 stage and the finite-scope model search (so it is still proved / refuted when that is quick)
+SLOW_BUDGET_S = int(os.environ.get('VERIF_SLOW_BUDGET_S', '600'))
+AFTER_REFUTATION_S = 90       # once one obligation is refuted (the verdict is a violation anyway) the slow stages get this much longer
+DEADLINE = mp.Value('d', 0.0)
 
 
 def to_smt2(hyps, goal, logic=None):
@@ -69,6 +75,10 @@ def _cvc5_check_text(text, strings=False):
         return 'unknown', time.time() - t0, None, 'cvc5 error: %r' % (e,)
 
 
+def _late():
+    return DEADLINE.value > 0 and time.time() > DEADLINE.value
+
+
 def _finite_scope(text):
     """Re-pose an undecided query with the uninterpreted sort Label interpreted as a finite set of
     k elements (k = 2..4). A model found this way is a genuine model of the original query (an
@@ -76,11 +86,11 @@ def _finite_scope(text):
     if '(declare-sort Label 0)' not in text:
         return None
     total = 0.0
-    for k in (2, 3, 4):
+    for k in ((2, 3) if _late() else (2, 3, 4)):
         dt = '(declare-datatypes ((Label 0)) ((' + ' '.join(f'(L!{i})' for i in range(k)) + ')))'
         t2 = text.replace('(declare-sort Label 0)', dt)
         s = z3.Solver()
-        s.set('timeout', 15000)
+        s.set('timeout', 5000 if _late() else 15000)
         try:
             s.from_string(t2)
         except z3.Z3Exception:
@@ -107,7 +117,10 @@ def _work(job):
     else:
         order = [('z3', lambda: _z3_check_text(text, Z3_FIRST_MS)), ('z3-finite-scope', lambda: _finite_scope(text)),
                  ('cvc5', lambda: _cvc5_check_text(text)), ('z3', lambda: _z3_check_text(text, Z3_TIMEOUT_MS))]
-    for backend, f in order:
+    for n_stage, (backend, f) in enumerate(order):
+        if _late() and n_stage >= (1 if strings else 2):
+            why_all.append('slow-stage budget of this check exhausted (VERIF_SLOW_BUDGET_S)')
+            break
         res = f()
         if res is None:
             continue
@@ -125,6 +138,7 @@ def discharge_all(jobs, nproc=16, inline_threshold=3):
     out = {}
     if not jobs:
         return out
+    DEADLINE.value = time.time() + SLOW_BUDGET_S
     if len(jobs) <= inline_threshold or nproc <= 1:
         for j in jobs:
             n, st, be, dt, model, why = _work(j)
@@ -134,6 +148,8 @@ def discharge_all(jobs, nproc=16, inline_threshold=3):
     with ctx.Pool(min(nproc, len(jobs))) as pool:
         for n, st, be, dt, model, why in pool.imap_unordered(_work, jobs, chunksize=max(1, len(jobs) // (nproc * 4))):
             out[n] = (st, be, dt, model, why)
+            if st == 'refuted' and '/canary' not in n:
+                DEADLINE.value = min(DEADLINE.value, time.time() + AFTER_REFUTATION_S)
     return out
 
 
